@@ -17,6 +17,17 @@ CHECKS = {
    note="Bounded constants (objects, reference counts); scripted random() never repeats a check word; TLC, clang ASan/UBSan and the harness projection (h_hdb.c) are trusted.",
    technique="TLA+ model checking (TLC) + model-generated histories replayed on the C code + TLC trace validation",
    design_ref="DESIGN.md section 4, C20"),
+ "C01": dict(
+   text="spec/RingBuffer.tla is a word-level model of lib/ringbuffer.c for one writer and one reader: one action per access to write_pt, "
+        "read_pt, a length word, a magic word or the semaphore, in the program order of the C code, with FIFO / exactly-once / untorn as an "
+        "invariant evaluated where a chunk is handed to the caller. TLC explores every interleaving on a 12-word ring (with and without the "
+        "semaphore, payloads made of the ring's own marker words, refusal and wrap). Binding: hook points after every shared access in "
+        "lib/ringbuffer.c are yield points of a deterministic two-thread scheduler (harness/h_rb_sched.c); seeded and directed schedules run the "
+        "real 1024-word ring and TLC validates every step (thread, point, value read or written, requested memory order) and every returned "
+        "chunk (length, payload hash) against the same model (RingBufferTrace.tla).",
+   note="Sequentially consistent interleavings at hook-point granularity (payload memcpy is one step on the real code); weaker-than-TSO reorderings are not executable here, only the requested release/acquire orders are bound; real-ring schedules are sampled, the exhaustive part is the small-ring model.",
+   technique="TLA+ model checking (TLC, all interleavings of a word-level model) + deterministic schedule control of the real threads via hook points + TLC trace validation of every step",
+   design_ref="DESIGN.md section 4, C01"),
  "C07": dict(
    text="spec/RingAbs.tla states the capacity contract and FIFO semantics of the ring buffer (must-accept rule with 16 bytes overhead, "
         "refused write and too-small read change nothing, reads return the accepted chunks byte for byte); TLC checks it exhaustively for "
@@ -93,6 +104,16 @@ CHECKS = {
    note="Concurrency is decided through the locking discipline (hooks in lib/array.c) plus the thread-level model, not by executing racing threads; creation profiles and index sets are fixed lists.",
    technique="TLA+ model checking (TLC, thread interleavings) + model-generated histories replayed on the C code + TLC trace validation of results and lock-discipline hook events",
    design_ref="DESIGN.md section 4, C19"),
+ "C15": dict(
+   text="spec/BbFile.tla: records logged, dump snapshot, retained count; abstract file cases (header/pointer/version/hash/chunk-field classes) "
+        "and the required outcome per case (exact round trip of all record fields for an undamaged dump; return with rc <= 0, no crash, no "
+        "leftover /dev/shm file otherwise). TLC checks it exhaustively for bounded call sequences x cases within 2 deviations. Binding: "
+        "TLC-generated round-trip walks and the TLC-enumerated class product of damaged files are executed on the real blackbox (ASan/UBSan, "
+        "forked children, PROT_NONE guard tail behind the ring mapping, /dev/shm census), plus every truncation length and seeded random "
+        "corruptions and junk files projected to abstract cases; TLC validates every recorded outcome (BbFileTrace.tla).",
+   note="Deviation bound 2/3 and seeded samples; message formats from a fixed family (printf equivalence is C14); retained set lower bound only (exact eviction is C11); output of damaged files unconstrained; sanitizers, guard tail and the h_bbfile.c projection are trusted.",
+   technique="TLA+ model checking (TLC) + TLC-enumerated abstract file cases concretised and executed on the C code + TLC trace validation + sanitizer / guard-page monitor",
+   design_ref="DESIGN.md section 4, C15"),
  "C17": dict(
    text="spec/Map.tla specifies the three map implementations as a dictionary with map-wide, per-key, recursive-prefix and "
         "value-release notifiers (per-implementation profile as a constant); TLC checks its invariants exhaustively for bounded "
@@ -153,4 +174,4 @@ def manifest():
     }
 
 NOT_APPLICABLE = {}
-HOOK_COMMITS = ["6403eeb", "060055a"]
+HOOK_COMMITS = ["6403eeb", "060055a", "1defb0d", "133ca4e"]
